@@ -1,6 +1,6 @@
 (* Regenerated-table obligations for C12 / C13: constants of the CURRENT source (Gen/Tables_gen.v, written by
    the translator on every run of bin/check) equal what Model/Writer.v assumes:
-     - the capacities of msgChan, activeMsgChan and activeMsgCompleteChan in newConnection;
+     - the capacities of msgChan, activeMsgChan, activeMsgCompleteChan and reissuePackChan in newConnection;
      - the five terminal response types that echo a platform serial are registered with HasReply() = false
        (an unmatched response is dropped without a reply and without consuming a serial), 0x1003 is
        registered with HasReply() = true (an unmatched 0x1003 is answered like other traffic);
@@ -23,7 +23,8 @@ Fixpoint cap_of (name : string) (l : list (string * N)) : option N :=
 Theorem tables_writer_chan_caps :
   cap_of "msgChan" gen_chan_caps = Some (N.of_nat cap_msg) /\
   cap_of "activeMsgChan" gen_chan_caps = Some (N.of_nat cap_act) /\
-  cap_of "activeMsgCompleteChan" gen_chan_caps = Some (N.of_nat cap_cpl).
+  cap_of "activeMsgCompleteChan" gen_chan_caps = Some (N.of_nat cap_cpl) /\
+  cap_of "reissuePackChan" gen_chan_caps = Some (N.of_nat cap_reis).
 Proof. repeat split; reflexivity. Qed.
 
 Fixpoint reg_of (id : N) (l : list (N * (bool * N * N))) : option (bool * N * N) :=
